@@ -90,6 +90,11 @@ class NT(tuple):
         return o
 
 
+# injections of concrete sorts into an abstract value sort, declared by a contract's setup:
+# COERCIONS[('Int', 'Val')] = int2val stores integers in a map whose values are of the abstract sort Val
+COERCIONS = {}
+
+
 class PArr:
     """a numpy array seen at one arbitrary index: element-wise code is verified pointwise (the same formula at every
     index); masks are booleans at that index.  `diag` says whether the index lies on the diagonal."""
@@ -189,7 +194,15 @@ def to_z3(v, ty=None):
             return z3.ToReal(v.e)
         if ty == TInt and v.ty == TBool:
             return z3.If(v.e, 1, 0)
+        inj = COERCIONS.get((v.ty.name, ty.name))
+        if inj is not None:
+            return inj(v.e)
         raise EngineError('cannot coerce %s to %s' % (v.ty, ty))
+    if isinstance(ty, TKey) and isinstance(v, (int, str)) and not isinstance(v, bool):
+        inj = COERCIONS.get(('Int' if isinstance(v, int) else 'Str', ty.name))
+        if inj is not None:
+            import z3 as _z3
+            return inj(_z3.IntVal(v) if isinstance(v, int) else _z3.StringVal(v))
     if ty is None:
         ty = type_of(v)
         if ty is None:
